@@ -1121,6 +1121,7 @@ func (s *Store[K, V]) Recover(version uint64, reader io.Reader) error {
 	block := &DataBlock[any]{}
 	s.policyMu.Lock()
 	defer s.policyMu.Unlock()
+	metaSeen := false
 	for {
 		// reset block first
 		block.Data = nil
@@ -1136,6 +1137,11 @@ func (s *Store[K, V]) Recover(version uint64, reader io.Reader) error {
 		}
 
 		reader := bytes.NewReader(block.Data)
+		// the block type is not covered by the checksum: a stream whose first block
+		// is not the metadata block would skip the version check and keep the wrong clock
+		if !metaSeen && block.Type != 1 {
+			return errors.New("metadata block missing")
+		}
 		if block.Type == 255 {
 			break
 		}
@@ -1150,6 +1156,7 @@ func (s *Store[K, V]) Recover(version uint64, reader io.Reader) error {
 			if m.Version != version {
 				return VersionMismatch
 			}
+			metaSeen = true
 			s.timerwheel.clock.SetStart(m.StartNano)
 			s.policy.sketch.EnsureCapacity(uint(m.Total))
 		case 2: // window lru
